@@ -17,6 +17,7 @@ import (
 	"github.com/PaesslerAG/jsonpath"
 	"github.com/piprate/json-gold/ld"
 
+	"github.com/hyperledger/aries-framework-go/component/models/presexch/internal/requirementlogic"
 	"github.com/hyperledger/aries-framework-go/component/models/verifiable"
 )
 
@@ -277,14 +278,34 @@ func selectVC(typelessVerifiable interface{},
 
 // Ensures the matched credentials meet the submission requirements.
 func (pd *PresentationDefinition) evalSubmissionRequirements(matched map[string]MatchValue) error {
-	// TODO support submission requirement rules: https://github.com/hyperledger/aries-framework-go/issues/2109
-	descriptorIDs := descriptorIDs(pd.InputDescriptors)
+	if len(pd.SubmissionRequirements) == 0 {
+		// without submission requirements every input descriptor must be matched.
+		descriptorIDs := descriptorIDs(pd.InputDescriptors)
 
-	for i := range descriptorIDs {
-		_, found := matched[i]
-		if !found {
-			return fmt.Errorf("no credential provided for input descriptor %s", i)
+		for i := range descriptorIDs {
+			_, found := matched[i]
+			if !found {
+				return fmt.Errorf("no credential provided for input descriptor %s", i)
+			}
 		}
+
+		return nil
+	}
+
+	// the same requirement logic the holder side (CreateVP) selects input descriptors with.
+	req, err := makeRequirement(pd.SubmissionRequirements, pd.InputDescriptors)
+	if err != nil {
+		return err
+	}
+
+	matchedIDs := requirementlogic.DescriptorIDSet{}
+
+	for id := range matched {
+		matchedIDs.Add(id)
+	}
+
+	if !req.toLogic().IsSatisfiedBy(matchedIDs) {
+		return fmt.Errorf("matched input descriptors do not satisfy the submission requirements")
 	}
 
 	return nil
